@@ -59,6 +59,7 @@ type vmEnv struct {
 	byConn   map[net.Conn]vmAttempt
 	flags    []*atomic.Bool
 	peers    map[net.Conn]*vmPeer // keyed by the pool-side conn
+	cancel   context.CancelFunc
 }
 
 func (e *vmEnv) NewConnection() (net.Conn, error) {
@@ -68,6 +69,10 @@ func (e *vmEnv) NewConnection() (net.Conn, error) {
 	case a := <-e.offers:
 		if a.conn == 0 {
 			return nil, errors.New("verif: dial/accept failed")
+		}
+		if a.conn == 2 && e.cancel != nil {
+			// the lifetime ends while the establisher is completing: a live connection is still returned
+			e.cancel()
 		}
 		poolSide, peerSide := net.Pipe()
 		flag := &atomic.Bool{}
@@ -140,7 +145,7 @@ func vmScenarioWithHook(lines []string, out func(string), listener OnConnectionL
 	var size int64
 	fmt.Sscanf(f0[1], "%d", &size)
 	ctx, cancel := context.WithCancel(context.Background())
-	env := &vmEnv{lifetime: ctx, offers: make(chan vmAttempt, 1024), byConn: map[net.Conn]vmAttempt{}, peers: map[net.Conn]*vmPeer{}}
+	env := &vmEnv{lifetime: ctx, offers: make(chan vmAttempt, 1024), byConn: map[net.Conn]vmAttempt{}, peers: map[net.Conn]*vmPeer{}, cancel: cancel}
 	builder := func(cb AddNewMux, lifetime context.Context) (MuxProvider, error) {
 		return &muxProvider{
 			name:         "verif-provider",
